@@ -30,6 +30,8 @@ RULE = ("classes built on the eligibility boundary of trusted deserialization: e
         "every case builds fresh classes; distinct by case hash")
 ASSUMPTIONS = [
     "fail-fast mode, no Versioned classes, no Constant fields, no class inheritance, no uniqueness features",
+    "rename mappers are injective on the class's fields (key collisions are C07's subject); one mapper per class, no lists of mappers "
+    "except as the 'unsupported' kind",
     "SerializableField types other than Enum (DateField, DateTime, TimeField, DecimalNumber) and Enum serialization_by_value are not in the model",
     "the regular path with mappers is not modelled here (C07 models it): for class trees with mappers the regular result is "
     "used by the oracle but not corresponded; the trusted and fast paths are modelled with the classes' own simple mappers",
